@@ -7,8 +7,9 @@ Graph-level model of
 * `CanonRSMI.canonicalise` (`synkit/Chem/Reaction/canon_rsmi.py`): canonical relabelling of the
   reactant graph (the labelling is the back-end's business and enters as a parameter; for a
   key-sorting back-end such as `_canon_wl` it is `pos (canonOrder key G)`), pairing of reactant and
-  product nodes through the shared `atom_map` values (`get_aam_pairwise_indices`), relabelling of the
-  product (`remap_graph`), `sync_atom_map_with_index` on both;
+  product nodes through the shared `atom_map` values (`get_aam_pairwise_indices`), fresh ids above the
+  canonical ones for the product atoms without a reactant partner (`unpairedPairs`, repair 270bb6f),
+  relabelling of the product (`remap_graph`), `sync_atom_map_with_index` on both;
 * `AAMValidator.smiles_check` (`aam_validator.py`): ITS graph (or reaction centre) of both
   reactions, `nx.is_isomorphic` with `typesGH` on nodes and `order` on edges;
 * `BalanceReactionCheck.rsmi_balance_check`: equality of the two sides' formulae
@@ -70,6 +71,7 @@ inductive Err
   | emptyMap   -- `ValueError("node_map must be non-empty")`
   | missing    -- `KeyError`: a pair names a node that the product graph does not have
   | collision  -- relabelling is not injective on the product's nodes: NetworkX would merge nodes; not modelled
+               -- (cannot happen on well-formed graphs with an injective back-end labelling: `canonRxnWith_unpaired_no_collision`)
 deriving DecidableEq, Repr
 
 /-- The dict `{data["atom_map"]: n for n, data in G.nodes(data=True) if data.get("atom_map", 0) > 0}`
@@ -99,11 +101,21 @@ def remapGraph (H : LGraph) (pairs : List (Nat × Nat)) : Except Err LGraph :=
     let H' := H.relabel (pairMap pairs)
     if decide H'.ids.Nodup then .ok H' else .error .collision
 
+def natLe (a b : Nat) : Bool := decide (a ≤ b)
+
+/-- The repair of F23 in `canonicalise`: product atoms without a reactant partner (`n not in paired`,
+`paired = {old for _, old in mapping_pairs}`) get the fresh ids `max(Gc.nodes(), default=0) + 1, + 2, …`
+in sorted order of their old ids; the result is the list `unpaired` of `(new, old)` pairs. -/
+def unpairedPairs (Gc H : LGraph) (pairs : List (Nat × Nat)) : List (Nat × Nat) :=
+  let olds := sortBy natLe (H.ids.filter fun n => !pairs.any fun p => p.2 == n)
+  (List.range' (Gc.ids.foldl max 0 + 1) olds.length).zip olds
+
 /-- `canonicalise` after `expand_aam` / `rsmi_to_graph`, for a back-end that relabels the reactant
-graph by `lab`. -/
+graph by `lab`: `remap_graph(H, mapping_pairs + unpaired)`. -/
 def canonRxnWith (lab : Nat → Nat) (G H : LGraph) : Except Err (LGraph × LGraph) :=
   let Gc := G.relabel lab
-  match remapGraph H (aamPairs Gc H) with
+  let pairs := aamPairs Gc H
+  match remapGraph H (pairs ++ unpairedPairs Gc H pairs) with
   | .error e => .error e
   | .ok Hc => .ok (sync Gc, sync Hc)
 
